@@ -16,7 +16,9 @@ def check(run, only=None):
                        "raise a false alarm"]
     # the design: with close-on-return and close-after-read every history becomes quiescent and clean; the defect variants are caught
     common.run_tlc("LexChan", "LexChan_ok", deadlock=True, timeout=600)
-    for neg, dl in (("LexChan_nodrain", True), ("LexChan_noclose", True)):
+    common.run_tlc("LexChan", "LexChan_buf_ok", deadlock=True, timeout=600)
+    # a buffer instead of draining: rejected as soon as the tokens still to come exceed the capacity
+    for neg, dl in (("LexChan_nodrain", True), ("LexChan_noclose", True), ("LexChan_buf_nodrain", True)):
         r = common.run_tlc("LexChan", neg, deadlock=dl, expect_fail=True, count=False, timeout=600)
         if r["ok"]:
             raise common.Infra("negative configuration %s was not rejected" % neg)
